@@ -50,6 +50,76 @@ theorem later_accrual (pending acc acc' bal : Int) :
 /-- a claim never pays more than is owed to the claimer -/
 theorem claim_truncates (pending : Int) (h : 0 ≤ pending) : claimPaid pending * P ≤ pending := tdiv_mul_le h
 
+
+/-! ### every reward denom is processed once -/
+
+theorem extLoop_nodup (seen ext : List String) : (extLoop seen ext).Nodup ∧ ∀ d ∈ extLoop seen ext, d ∉ seen := by
+  induction ext generalizing seen with
+  | nil => simp [extLoop]
+  | cons e es ih =>
+    unfold extLoop
+    split
+    · exact ih seen
+    · rename_i hc
+      obtain ⟨h1, h2⟩ := ih (e :: seen)
+      refine ⟨List.nodup_cons.mpr ⟨fun hm => ?_, h1⟩, fun d hd => ?_⟩
+      · exact h2 e hm (List.mem_cons_self ..)
+      · rcases List.mem_cons.mp hd with h | h
+        · subst h; simpa using hc
+        · exact fun hs => h2 d h (List.mem_cons_of_mem _ hs)
+
+/-- whatever governance or incentives put into a pool's external reward denoms (duplicates, Eden, the base currency itself),
+the list the hooks walk names every denom once — provided the "already listed" set is seeded with the denom that heads the list -/
+theorem rewardDenoms_nodup (base : String) (edenOn : Bool) (ext : List String) (hb : base ≠ "ueden") :
+    (rewardDenoms base edenOn ext).Nodup := by
+  obtain ⟨h1, h2⟩ := extLoop_nodup ["ueden", base] ext
+  unfold rewardDenoms rewardDenomsSeeded
+  cases edenOn
+  · simp only [Bool.false_eq_true, if_false, List.append_nil, List.singleton_append, List.nodup_cons]
+    exact ⟨fun hm => h2 base hm (by simp), h1⟩
+  · simp only [if_true, List.cons_append, List.nil_append, List.nodup_cons, List.mem_cons, not_or]
+    exact ⟨⟨hb, fun hm => h2 base hm (by simp)⟩, fun hm => h2 "ueden" hm (by simp), h1⟩
+
+theorem count_one_of_nodup (ds : List String) (d : String) (hn : ds.Nodup) (hd : d ∈ ds) : ds.count d = 1 := by
+  induction ds with
+  | nil => simp at hd
+  | cons e es ih =>
+    obtain ⟨hne, hn'⟩ := List.nodup_cons.mp hn
+    rcases List.mem_cons.mp hd with h | h
+    · subst h; simp [List.count_eq_zero_of_not_mem hne]
+    · have : e ≠ d := fun he => hne (he ▸ h)
+      simp [this, ih hn' h]
+
+/-- one pass of the hook changes nothing claimable (for withdrawals and deposits alike) … -/
+theorem hookPass_claimable (acc balAfter x : Int) (u : UR) :
+    claimable (hookPass acc balAfter x u).pending acc balAfter (hookPass acc balAfter x u).debt =
+    claimable u.pending acc (balAfter + x) u.debt := by
+  simp [claimable, pendingDelta, debtOf, hookPass]
+
+/-- … so a withdrawal or deposit through a duplicate-free denom list leaves every listed denom's claimable amount as it was -/
+theorem hookOver_claimable (ds : List String) (d : String) (hn : ds.Nodup) (hd : d ∈ ds) (acc balAfter x : Int) (u : UR) :
+    claimable (hookOver ds d acc balAfter x u).pending acc balAfter (hookOver ds d acc balAfter x u).debt =
+    claimable u.pending acc (balAfter + x) u.debt := by
+  have hc : ds.count d = 1 := count_one_of_nodup ds d hn hd
+  simp only [hookOver, hc, hookPasses]
+  exact hookPass_claimable acc balAfter x u
+
+/-- a second pass credits `acc · x` once more: whatever the withdrawn shares had accrued over the pool's whole life, unfunded -/
+theorem hookPass_twice (acc balAfter x : Int) (u : UR) :
+    claimable (hookPasses acc balAfter x 2 u).pending acc balAfter (hookPasses acc balAfter x 2 u).debt =
+    claimable u.pending acc (balAfter + x) u.debt + (acc * x).tdiv P := by
+  simp only [hookPasses, hookPass, claimable, pendingDelta, debtOf]
+  have : acc * (balAfter + x) - acc * balAfter = acc * x := by rw [Int.mul_add]; omega
+  simp [this]
+
+/-- WITNESS (the shape of seeded change C13-3): the "already listed" set seeded with the constant `uusdc` on a chain whose USDC is
+an ibc/ voucher, and a pool that has had an incentive in USDC: the base currency is listed twice; with the code's seed it is not. -/
+theorem constant_seed_witness :
+    rewardDenomsSeeded ["ueden", "uusdc"] "ibc/USDC" true ["ibc/USDC"] = ["ibc/USDC", "ueden", "ibc/USDC"] ∧
+    rewardDenoms "ibc/USDC" true ["ibc/USDC"] = ["ibc/USDC", "ueden"] ∧
+    (hookOver ["ibc/USDC", "ueden", "ibc/USDC"] "ibc/USDC" (2 * P) 25 75 ⟨0, 2 * P * 100⟩).pending = 150 := by
+  refine ⟨by decide, by decide, by decide⟩
+
 /-! ### solvency -/
 
 def Inv (s : St) : Prop := s.owed + s.reserved ≤ s.bal * P ∧ 0 ≤ s.reserved
